@@ -608,7 +608,7 @@ func (i *Snapshot) readFromVersion1(br *bufio.Reader) (int64, error) {
 	}
 	bytesRead += int64(sz)
 
-	for j := 0; j < int(numSegments); j++ {
+	for j := uint64(0); j < numSegments; j++ {
 		segmentBytesRead, ss, err := i.readSegmentSnapshot(br)
 		if err != nil {
 			return bytesRead, err
@@ -633,7 +633,7 @@ func (i *Snapshot) readSegmentSnapshot(br *bufio.Reader) (bytesRead int64, ss *s
 
 	// read ver
 	verBuf := make([]byte, 4)
-	sz, err = br.Read(verBuf)
+	sz, err = io.ReadFull(br, verBuf)
 	if err != nil {
 		return bytesRead, nil, fmt.Errorf("error reading snapshot %d: %w", i.epoch, err)
 	}
@@ -671,12 +671,12 @@ func (i *Snapshot) readSegmentSnapshot(br *bufio.Reader) (bytesRead int64, ss *s
 	bytesRead += int64(sz)
 
 	if delLen > 0 {
-		deletedBytes := make([]byte, int(delLen))
-		sz, err = io.ReadFull(br, deletedBytes)
+		var deletedBytes []byte
+		deletedBytes, err = readN(br, delLen)
 		if err != nil {
 			return bytesRead, nil, fmt.Errorf("error reading snapshot %d: %w", i.epoch, err)
 		}
-		bytesRead += int64(sz)
+		bytesRead += int64(len(deletedBytes))
 
 		rr := bytes.NewReader(deletedBytes)
 		deletedBitmap := roaring.NewBitmap()
@@ -694,7 +694,7 @@ func (i *Snapshot) readSegmentSnapshot(br *bufio.Reader) (bytesRead int64, ss *s
 
 func readVarLenString(r *bufio.Reader) (n int, str string, err error) {
 	peek, err := r.Peek(binary.MaxVarintLen64)
-	if err != nil {
+	if err != nil && err != io.EOF {
 		return n, "", err
 	}
 	strLen, uVarRead := binary.Uvarint(peek)
@@ -704,13 +704,35 @@ func readVarLenString(r *bufio.Reader) (n int, str string, err error) {
 	}
 	n += sz
 
-	strBytes := make([]byte, strLen)
-	sz, err = r.Read(strBytes)
+	strBytes, err := readN(r, strLen)
 	if err != nil {
 		return n, "", err
 	}
-	n += sz
+	n += len(strBytes)
 	return n, string(strBytes), nil
+}
+
+// readNChunk bounds how much memory readN claims ahead of the data.
+const readNChunk = 4096
+
+// readN reads exactly n bytes from r. n comes from the file and is not
+// trusted: memory is claimed in steps of at most readNChunk bytes, as the
+// data arrives, so a damaged length cannot request more than the file holds.
+func readN(r io.Reader, n uint64) ([]byte, error) {
+	var rv []byte
+	for n > 0 {
+		step := n
+		if step > readNChunk {
+			step = readNChunk
+		}
+		start := len(rv)
+		rv = append(rv, make([]byte, step)...)
+		if _, err := io.ReadFull(r, rv[start:]); err != nil {
+			return nil, err
+		}
+		n -= step
+	}
+	return rv, nil
 }
 
 func (i *Snapshot) DocumentValueReader(fields []string) (
